@@ -104,3 +104,28 @@ func Main(t *testing.T, mode string, fn func(c Case, file []byte, report func(er
 	ev.Trace(n)
 	ev.Trans(trans)
 }
+
+// RaceMain runs the scenarios free-running (no bubble, no held requests, real scheduler) so
+// that a -race build can observe unsynchronised accesses between the workers. It judges
+// nothing but termination.
+func RaceMain(t *testing.T, mode string, fn func(c Case, file []byte, report func(error))) {
+	defer ev.Flush("C07")
+	log.SetLevel(log.LEVEL_NONE)
+	var n int64
+	scs := Scenarios()
+	for rep := 0; rep < 12; rep++ {
+		for si, sc := range scs {
+			if sc.FailAt > 0 || sc.Pre || !ev.Mine(int64(rep*len(scs)+si)) {
+				continue
+			}
+			sc.Workers = 4
+			if !RaceRun(sc, fn) {
+				ev.Violate("C07|"+mode+"|free-running-blocked", "free-running execution did not terminate within 30 s", sc)
+				ev.Eval(n)
+				return
+			}
+			n++
+		}
+	}
+	ev.Eval(n)
+}
